@@ -4,9 +4,10 @@ EXTENDS ActionWorker
 
 CONSTANTS NEvents, MaxTime, Classes, Cap, ECap, Throttle0
 
-E(prio, verdict, empty, hold, act, arg, onerr) ==
+EH(prio, verdict, empty, hold, act, arg, onerr, errhold) ==
     [prio |-> prio, verdict |-> verdict, empty |-> empty, hold |-> hold, act |-> act,
-     arg |-> arg, onerr |-> onerr]
+     arg |-> arg, onerr |-> onerr, errhold |-> errhold]
+E(prio, verdict, empty, hold, act, arg, onerr) == EH(prio, verdict, empty, hold, act, arg, onerr, 0)
 
 \* C01: every tag kind the filter treats differently, handler durations
 ClassesFlow == { E(1, "pass", FALSE, 0, "none", 0, "ignore"), E(1, "reject", FALSE, 0, "none", 0, "ignore"),
@@ -19,7 +20,11 @@ ClassesTime == { E(1, "pass", FALSE, 0, "none", 0, "ignore"), E(1, "reject", FAL
 \* C15: errors and what the error handler does with them
 ClassesErr  == { E(1, "pass", FALSE, 0, "none", 0, "ignore"), E(1, "error", FALSE, 0, "none", 0, "ignore"),
                  E(1, "error", FALSE, 0, "none", 0, "elevate"), E(2, "error", FALSE, 0, "none", 0, "critical"),
-                 E(1, "pass", FALSE, 2, "none", 0, "ignore") }
+                 E(1, "pass", FALSE, 2, "none", 0, "ignore"),
+                 \* an error handler that takes a while
+                 EH(1, "error", FALSE, 0, "none", 0, "ignore", 2),
+                 \* ... and one that replaces itself
+                 E(1, "error", FALSE, 0, "none", 0, "replace") }
 
 MCInit ==
     /\ now = 0
@@ -95,7 +100,8 @@ ErrorOnlyForErrors == \A e \in DOMAIN hist.errSeen : evs[e].verdict = "error" /\
 ErrorReported ==
     (~AnyEnabled(now) /\ main = "run")
         => \A e \in hist.refused : evs[e].verdict = "error" =>
-              (e \in DOMAIN hist.errSeen /\ hist.errSeen[e] = 1) \/ W.blockedOn = e
+              \/ (e \in DOMAIN hist.errSeen /\ hist.errSeen[e] = 1) \/ W.blockedOn = e
+              \/ (e \in SeqToSet(errq) /\ W.hookEnd > now)       \* waiting for a slow handler
 CriticalEndsMain ==
     /\ \A e \in DOMAIN hist.errSeen : evs[e].onerr \in {"elevate", "critical"} => main \in {"failing", "err"}
     /\ ~AnyEnabled(now) => main # "failing"
